@@ -1,6 +1,7 @@
 /- Rbgp.Rpki.Proofs — C12 lemmas: `validate` computes the RFC 6811 state of the stored VRP set,
    the origin derivation, `iter`, and the simulation between model runs and the reference checker. -/
 import Rbgp.Rpki.Refine
+import Rbgp.Rpki.Path
 namespace Rbgp.Rpki
 open Spec
 
@@ -176,7 +177,7 @@ theorem validate_state {t : Table} (hi : TableInv t) {r : Net} (hn : NetWF r) (l
     (t.validate localAsn r path).map (·.state)
       = some (rfc6811 (abs t) (routeOrigin localAsn path) r) := by
   have hti := hi.trie r.fam
-  simp only [Table.validate, Option.map_some, Option.some.injEq]
+  simp only [Table.validate, Table.validateO, Option.map_some, Option.some.injEq]
   rw [finish_state]
   obtain ⟨hm, hua, hul⟩ := foldl_validateStep (t.trie r.fam) r (routeOrigin localAsn path)
     (List.range (min r.len (min (r.addr.length * 8) 255) + 1)) {}
@@ -333,9 +334,9 @@ def OpWF : Op → Prop
   | .rem _ n _ _ => NetWF n
   | .drop _ => True
   | .reset _ vs => ∀ v ∈ vs, NetWF v.1
-  | .val n _ => NetWF n
+  | .val n p => NetWF n ∧ PathEnc p
   | .iter _ => True
-  | .display _ _ n _ => NetWF n
+  | .display _ _ n p => NetWF n ∧ PathEnc p
 
 theorem rfc6811_congr {s1 s2 : List Vrp} (h : ∀ v, v ∈ s1 ↔ v ∈ s2) (o : Option Nat) (r : Net) :
     rfc6811 s1 o r = rfc6811 s2 o r := by
@@ -462,15 +463,15 @@ theorem run_sim (la ga : Nat) (ops : List Op) : ∀ (t : Table) (s : List Vrp) (
       obtain ⟨t', obs, hrun, hchk, hi', hr'⟩ := ih t1 _ (i + 1) hi1 hr1 hwf'
       exact ⟨t', obs, by simp [runFrom, hs, hrun], by simpa [checkFrom] using hchk, hi', by simpa using hr'⟩
     | val r path =>
-      obtain ⟨res, hv, hc⟩ := checkVal_ok hi hr la hwf0 path
+      obtain ⟨res, hv, hc⟩ := checkVal_ok hi hr la hwf0.1 path
       obtain ⟨t', obs, hrun, hchk, hi', hr'⟩ := ih t s (i + 1) hi hr hwf'
-      refine ⟨t', .v res :: obs, by simp [runFrom, step, hv, hrun], ?_, hi', by simpa [sStep] using hr'⟩
+      refine ⟨t', .v res :: obs, by simp [runFrom, step, validateB_eq _ _ _ _ hwf0.2, hv, hrun], ?_, hi', by simpa [sStep] using hr'⟩
       simp [checkFrom, hc, hchk]
     | display loc st r path =>
-      obtain ⟨res, hv, hc⟩ := checkShow_ok hi hr (if loc then ga else la) st hwf0 path
+      obtain ⟨res, hv, hc⟩ := checkShow_ok hi hr (if loc then ga else la) st hwf0.1 path
       obtain ⟨t', obs, hrun, hchk, hi', hr'⟩ := ih t s (i + 1) hi hr hwf'
       refine ⟨t', .api (some (res.state, res.reason)) (decide (res.state = st)) :: obs,
-        by simp [runFrom, step, hv, hrun], ?_, hi', by simpa [sStep] using hr'⟩
+        by simp [runFrom, step, validateB_eq _ _ _ _ hwf0.2, hv, hrun], ?_, hi', by simpa [sStep] using hr'⟩
       simp [checkFrom, hc, hchk]
     | iter f =>
       obtain ⟨l, hl, hc⟩ := checkIter_ok hi hr f
@@ -517,15 +518,15 @@ theorem run_ok (la ga : Nat) (ops : List Op) : ∀ (t : Table) (s : List Vrp),
     | val r path =>
       obtain ⟨t', obs, hrun, hi', hr'⟩ := ih t s hi hr hwf'
       cases hv : t.validate la r path with
-      | none => exact ⟨t', .unvalidated :: obs, by simp [runFrom, step, hv, hrun], hi', by simpa [sStep] using hr'⟩
-      | some res => exact ⟨t', .v res :: obs, by simp [runFrom, step, hv, hrun], hi', by simpa [sStep] using hr'⟩
+      | none => exact ⟨t', .unvalidated :: obs, by simp [runFrom, step, validateB_eq _ _ _ _ hwf0.2, hv, hrun], hi', by simpa [sStep] using hr'⟩
+      | some res => exact ⟨t', .v res :: obs, by simp [runFrom, step, validateB_eq _ _ _ _ hwf0.2, hv, hrun], hi', by simpa [sStep] using hr'⟩
     | display loc st r path =>
       obtain ⟨t', obs, hrun, hi', hr'⟩ := ih t s hi hr hwf'
       cases hv : t.validate (if loc then ga else la) r path with
-      | none => exact ⟨t', .api none false :: obs, by simp [runFrom, step, hv, hrun], hi', by simpa [sStep] using hr'⟩
+      | none => exact ⟨t', .api none false :: obs, by simp [runFrom, step, validateB_eq _ _ _ _ hwf0.2, hv, hrun], hi', by simpa [sStep] using hr'⟩
       | some res =>
         exact ⟨t', .api (some (res.state, res.reason)) (decide (res.state = st)) :: obs,
-          by simp [runFrom, step, hv, hrun], hi', by simpa [sStep] using hr'⟩
+          by simp [runFrom, step, validateB_eq _ _ _ _ hwf0.2, hv, hrun], hi', by simpa [sStep] using hr'⟩
     | iter f =>
       obtain ⟨l, hl, _⟩ := checkIter_ok hi hr f
       obtain ⟨t', obs, hrun, hi', hr'⟩ := ih t s hi hr hwf'
